@@ -52,8 +52,8 @@ def canon_xray(x, depth):
         except Exception as e:  # noqa: BLE001 - outcome of the read is the value
             out[name] = ["E", type(e).__name__]
     for k in sorted(vars(x)):
-        if k in ("_table", "element"):
-            continue
+        if k.startswith("_") or k == "element":
+            continue      # private fields are caches / back references, not served values
         out["+" + k] = canon(vars(x)[k], depth + 1)
     return ["R", "Xray", out]
 
@@ -114,7 +114,8 @@ def canon(v, depth=0):
             out = {}
             keys = list(served)
             try:
-                extra = sorted(k for k in vars(v) if k not in served and k not in internal)
+                extra = sorted(k for k in vars(v) if k not in served and k not in internal
+                               and not k.startswith("_"))
             except TypeError:
                 extra = []
             for k in keys + extra:
